@@ -197,6 +197,30 @@ def plant_hash_twins(table, n_pairs, rng):
     return table
 
 
+def plant_sibling_groups(table, rng, n_swaps=3):
+    """Make the PeptideGroup column a *sibling* of the peptide level: as many groups as peptides (group k = peptide k),
+    except that for a few pairs of peptides one PSM of each swaps its group with the other.  Both levels then keep the same
+    number of rows but not the same rows - equal counts do not mean equal levels."""
+    cols = table["columns"]
+    if "PeptideGroup" not in cols:
+        return table
+    pi, gi, li = cols.index("Peptide"), cols.index("PeptideGroup"), cols.index("Label")
+    idx = {}
+    by_pep = {}
+    for ri, r in enumerate(table["rows"]):
+        is_t = r[li] is True or r[li] == 1
+        k = idx.setdefault((is_t, r[pi]), len(idx))
+        r[gi] = f"{'sg' if is_t else 'dsg'}{k}"
+        by_pep.setdefault((is_t, r[pi]), []).append(ri)
+    for is_t in (True, False):
+        multi = [k for k, v in by_pep.items() if k[0] == is_t and len(v) >= 2]
+        rng.shuffle(multi)
+        for a, b in list(zip(multi[0::2], multi[1::2]))[:n_swaps]:
+            ra, rb = by_pep[a][0], by_pep[b][0]
+            table["rows"][ra][gi], table["rows"][rb][gi] = table["rows"][rb][gi], table["rows"][ra][gi]
+    return table
+
+
 def hash_stable(s):
     h = 0
     for ch in s:
@@ -255,9 +279,11 @@ def with_range_index_metadata(tbl, start):
     return tbl.replace_schema_metadata(md)
 
 
-def write_parquet(path, table, row_group_size=None, dict_strings=False, index_start=0):
+def write_parquet(path, table, row_group_size=None, dict_strings=False, index_start=0, nan_values=False):
     """dict_strings: string columns are stored dictionary-typed (what pandas writes for a Categorical column and what
-    many Arrow-based tools write for low-cardinality strings)."""
+    many Arrow-based tools write for low-cardinality strings).  nan_values: a missing value of a floating-point column
+    is stored as the float NaN, not as a Parquet null (what pyarrow writes from numpy arrays, and polars / Spark write;
+    pandas reads both back as NaN, but the file's null counts differ)."""
     import pyarrow as pa
     import pyarrow.parquet as pq
 
@@ -271,7 +297,7 @@ def write_parquet(path, table, row_group_size=None, dict_strings=False, index_st
             typ = pa.int64()
         elif nn and all(isinstance(v, (int, float)) and not isinstance(v, bool) for v in nn):
             typ = pa.float64()
-            vals = [None if v is None else float(v) for v in vals]
+            vals = [(float("nan") if nan_values else None) if v is None else float(v) for v in vals]
         else:
             typ = pa.string()
             vals = [None if v is None else str(v) for v in vals]
@@ -287,9 +313,10 @@ def write_parquet(path, table, row_group_size=None, dict_strings=False, index_st
     pq.write_table(tbl, path, **kw)
 
 
-def write_table(path, table, row_group_size=None, dict_strings=False, index_start=0, na_token="", g_format=False):
+def write_table(path, table, row_group_size=None, dict_strings=False, index_start=0, na_token="", g_format=False,
+                nan_values=False):
     if str(path).endswith(".parquet"):
-        write_parquet(path, table, row_group_size, dict_strings=dict_strings, index_start=index_start)
+        write_parquet(path, table, row_group_size, dict_strings=dict_strings, index_start=index_start, nan_values=nan_values)
     else:
         write_pin(path, table, na_token=na_token, g_format=g_format)
 
